@@ -44,10 +44,10 @@ TreeFaults(sn, e, lits, pred) ==
   IN IF cf # "" THEN <<"nonconforming", cf, pred>>
      ELSE IF e.hastoks /\ al # "" THEN <<"altered", al, pred>>
      ELSE NoFail
-Judge(sn, e, wf, o, lits) ==
-  \* wf: the input is well-formed; o: the prediction (only if wf)
+Judge(sn, e, wf, o, lits, shape) ==
+  \* wf: the input is well-formed; o: the prediction (only if wf); shape: where the input has a value of the wrong shape
   \* value xor error: anything but a tree or an error (a panic, neither, both) is a failure
-  IF e.out \notin {"tree", "error"} THEN <<e.out, "", IF wf THEN o.cls ELSE "error">>
+  IF e.out \notin {"tree", "error"} THEN <<e.out, shape, IF wf THEN o.cls ELSE "error">>
   ELSE IF ~wf THEN (IF e.out = "error" THEN NoFail
                     ELSE LET f == TreeFaults(sn, e, lits, "error") IN IF f # NoFail THEN f ELSE <<"accepted-ill-formed", "", "error">>)
   ELSE IF e.out = "error" THEN (IF o.cls = "tree" THEN <<"rejected-valid", "", "tree">> ELSE NoFail)
@@ -60,9 +60,10 @@ DecodeFault(sn, e) ==
   THEN (IF e.out \notin {"tree", "error"} THEN <<e.out, "", "">> ELSE IF e.out = "tree" THEN TreeFaults(sn, e, {}, "") ELSE NoFail)
   ELSE IF IsX(e)
   THEN LET p == XParse(e.xtoks) IN
-       Judge(sn, e, p.ok, IF p.ok /\ ~p.trailing THEN DecX(sn, p.e) ELSE OpenOut, IF p.ok THEN XLitsOf(p.e) ELSE {})
+       Judge(sn, e, p.ok, IF p.ok /\ ~p.trailing THEN DecX(sn, p.e) ELSE OpenOut, IF p.ok THEN XLitsOf(p.e) ELSE {},
+             IF p.ok THEN XShape(sn, p.e) ELSE "")
   ELSE LET p == JParse(e.toks) IN
-       Judge(sn, e, p.ok, IF p.ok THEN DecJ(Rfc(e), sn, p.v) ELSE OpenOut, JLits(e.toks))
+       Judge(sn, e, p.ok, IF p.ok THEN DecJ(Rfc(e), sn, p.v) ELSE OpenOut, JLits(e.toks), IF p.ok THEN JShape(Rfc(e), sn, p.v) ELSE "")
 
 \* ---- the encoder's output against the prediction
 EncodeFault(sn, e) ==
